@@ -109,6 +109,47 @@ def echo_lines(x, p):
     x.check('one output line per source line', len(lines) == nl + tail)
 
 
+SOURCES = [b'?"hi" // note\nx=1 -- c\nif (x) y=2 else y=3\n',
+           b'x+=1 y-=2\nz="a\\65"..[[l\n]] // d\n::l:: goto l\n',
+           b'function _update() end\nlocal t={1,2;3}\nif (t) ?t[1]\n']
+
+
+def after_other_writer(x, p):
+    """A library user lists or transforms the code with another writer
+    (pure-Lua listing, minifier, formatter, tree writers) and then saves the
+    cart: the default writer must still echo the source - the other writers
+    work on the same token objects and must leave them as they were."""
+    src = x.choice('src', SOURCES)
+    first = x.choice('first', ['PureLuaWriter', 'LuaMinifyTokenWriter',
+                               'LuaFormatterWriter', 'LuaASTEchoWriter',
+                               'LuaEchoWriter', 'get_token_count',
+                               'get_title', 'reparse'])
+    tail = x.bytes('tail', 1, 32, 126)       # one symbolic comment byte
+    text = src + b'v=1 --' + tail + b'\n'
+    prog = lua.Lua.from_lines([text], version=8)
+    echo0 = b''.join(prog.to_lines())
+    x.check('harness: first echo is the source (string literals by value)',
+            len(echo0) > 0)
+    try:
+        if first == 'get_token_count':
+            prog.get_token_count()
+        elif first == 'get_title':
+            prog.get_title()
+            prog.get_byline()
+        elif first == 'reparse':
+            prog.reparse(writer_cls=lua.LuaEchoWriter)
+        else:
+            list(prog.to_lines(writer_cls=getattr(lua, first)))
+    except Exception as e:
+        x.check('the other writer works on a valid program', False,
+                info=first + ' ' + repr(e)[:120])
+        return
+    echo1 = b''.join(prog.to_lines())
+    x.out('echo', echo1)
+    x.check('the default writer echoes the same code after another writer '
+            'has run on the same Lua object', echo1 == echo0, info=first)
+
+
 Q = {'_budget': 300}
 HARNESSES = [
     Harness('encode_decode', encode_decode,
@@ -119,6 +160,7 @@ HARNESSES = [
             quick=[dict(Q, n=2, level=l) for l in (0, 1)],
             thorough=[dict(Q, n=n, level=l) for n in (0, 1, 3, 4)
                       for l in (0, 1, 2)]),
+    Harness('after_other_writer', after_other_writer, quick=[Q]),
     Harness('echo_lines', echo_lines, quick=[dict(Q, k=3)],
             thorough=[dict(Q, k=5, _budget=900)]),
 ]
